@@ -68,70 +68,70 @@ def gen_history(seed, tier="quick", zoo_filter=None, faults_on=True):
     while len(points) < npts:
         points.append(draw_point(model, points, rng, nprng))
     enabled = {k: (faults_on and rng.random() < 0.7) for k in FAULT_KINDS}
-    n_ops = rng.randint(4, 14)
-    w = {
-        "set_point": 3.0,
-        "run_model": 3.0,
-        "linearize": 2.0,
-        "compute_totals": 3.0,
-        "check_partials": 1.2 if (enabled["fd_excursion"] or enabled["cs_excursion"]) else 0.0,
-        "check_totals": 0.8 if (enabled["fd_excursion"] or enabled["cs_excursion"]) else 0.0,
-        "scribble": 1.0 if enabled["scribble"] else 0.0,
-        "abort": 0.8 if enabled["abort"] else 0.0,
-        "run_driver": 0.6 if use_driver else 0.0,
-    }
-    for k in w:
-        w[k] *= rng.uniform(0.5, 1.5)
-    ops = [{"op": "set_point", "k": 0}, {"op": "run_model"}]
-    converged = True
-    cur = 0
-    comp_paths = [c.pathname for c in obs.components(model.prob) if obs.is_oas(c)]
     methods = [m for m, on in (("fd", enabled["fd_excursion"]), ("cs", enabled["cs_excursion"])) if on]
-    while len(ops) < n_ops:
-        legal = ["set_point", "run_model", "scribble", "abort", "run_driver"]
-        if converged:
-            legal += ["linearize", "compute_totals", "check_partials", "check_totals"]
-        cands = [k for k in legal if w.get(k, 0) > 0]
-        kind = rng.choices(cands, weights=[w[k] for k in cands])[0]
-        if kind == "set_point":
-            k = rng.randrange(len(points))
-            ops.append({"op": "set_point", "k": k})
-            # setting the identical point again does not change anything, but conservative: needs re-run
-            converged = False
-            cur = k
-        elif kind == "run_model":
-            ops.append({"op": "run_model"})
-            converged = True
-        elif kind == "linearize":
-            ops.append({"op": "linearize"})
-        elif kind == "compute_totals":
-            of = _subset(rng, model.of)
-            wrt = _subset(rng, model.wrt)
-            ops.append({"op": "compute_totals", "of": of, "wrt": wrt})
-        elif kind == "check_partials":
+    comp_paths = [c.pathname for c in obs.components(model.prob) if obs.is_oas(c)]
+    # per-run op-mix knobs (swarm)
+    p_scribble = rng.uniform(0.0, 0.5) if enabled["scribble"] else 0.0
+    p_abort = rng.uniform(0.0, 0.4) if enabled["abort"] else 0.0
+    p_rerun = rng.uniform(0.0, 0.4)
+    p_excursion = rng.uniform(0.1, 0.6) if methods else 0.0
+    p_driver = 0.35 if use_driver else 0.0
+    p_revisit = rng.uniform(0.1, 0.5)
+
+    def lin_op():
+        r = rng.random()
+        if r < 0.4:
+            return {"op": "linearize"}
+        return {"op": "compute_totals", "of": _subset(rng, model.of), "wrt": _subset(rng, model.wrt)}
+
+    def excursion_op():
+        if rng.random() < 0.6:
             inc = None
             if comp_paths and rng.random() < 0.8:
                 inc = sorted(set(rng.sample(comp_paths, min(len(comp_paths), rng.randint(1, 4)))))
-            ops.append({"op": "check_partials", "method": rng.choice(methods), "includes": inc})
-        elif kind == "check_totals":
-            of = _subset(rng, model.of, 2)
-            wrt = _subset(rng, model.wrt, 2)
-            ops.append({"op": "check_totals", "method": rng.choice(methods), "of": of, "wrt": wrt})
-        elif kind == "scribble":
-            sk = rng.choice(["zeros", "initial", "scale", "donor", "noise"])
-            ops.append({"op": "scribble", "kind": sk, "factor": round(rng.uniform(0.0, 3.0), 3),
-                        "donor": rng.randrange(len(points)), "nseed": rng.randrange(10**6)})
-            converged = False
-        elif kind == "abort":
-            ops.append({"op": "abort", "target": rng.choice(["run_model", "run_model", "compute_totals"]),
-                        "frac": round(rng.uniform(0.02, 0.98), 4)})
-            converged = False
-        elif kind == "run_driver":
-            ops.append({"op": "run_driver", "maxiter": rng.randint(1, 3)})
-            converged = False
-    if not converged:
+            return {"op": "check_partials", "method": rng.choice(methods), "includes": inc}
+        return {"op": "check_totals", "method": rng.choice(methods), "of": _subset(rng, model.of, 2), "wrt": _subset(rng, model.wrt, 2)}
+
+    # A history is a sequence of visits: set a point, (fault), converge, then a burst of linearisations and
+    # excursions - the shape of an optimiser's life, and the shape in which stale state is consumed.
+    ops = []
+    n_visits = rng.randint(2, 5)
+    prev = None
+    visited = []
+    for v in range(n_visits):
+        if visited and rng.random() < p_revisit:
+            k = rng.choice(visited)
+        else:
+            cands = [i for i in range(len(points)) if i != prev] or [0]
+            k = rng.choice(cands)
+        ops.append({"op": "set_point", "k": k})
+        prev = k
+        visited.append(k)
+        if v > 0 and rng.random() < p_scribble:
+            ops.append({"op": "scribble", "kind": rng.choice(["zeros", "initial", "scale", "donor", "noise"]),
+                        "factor": round(rng.uniform(0.0, 3.0), 3), "donor": rng.randrange(len(points)),
+                        "nseed": rng.randrange(10**6)})
+        if v > 0 and rng.random() < p_abort:
+            ops.append({"op": "abort", "target": "run_model", "frac": round(rng.uniform(0.02, 0.98), 4)})
         ops.append({"op": "run_model"})
-    # finish with a full observation
+        if rng.random() < p_rerun:
+            ops.append({"op": "run_model"})
+        if rng.random() < p_driver:
+            ops.append({"op": "run_driver", "maxiter": rng.randint(1, 3)})
+            ops.append({"op": "run_model"})
+        nburst = rng.choice([0, 1, 1, 2, 2, 3])
+        for _ in range(nburst):
+            if rng.random() < p_excursion:
+                ops.append(excursion_op())
+                r = rng.random()
+                if r < 0.55:
+                    ops.append(lin_op())  # linearise right after the excursion, without re-running
+                elif r < 0.8:
+                    ops.append({"op": "run_model"})
+                    ops.append(lin_op())
+            else:
+                ops.append(lin_op())
+    # finish with a full observation at the last point
     ops.append({"op": "linearize"})
     ops.append({"op": "compute_totals", "of": list(model.of), "wrt": list(model.wrt)})
     hist = {
@@ -497,11 +497,13 @@ def execute(hist, stop_at_first=True, known=None, collect=True):
                 log.add("scribble", sk, op["factor"], n)
             elif kind == "abort":
                 total = last_run_calls or max(10, 3 * len(obs.components(prob)))
-                if op["target"] == "compute_totals" and not converged:
-                    # a linearisation is only legal at a converged point: abort the run instead
-                    target = "run_model"
-                else:
-                    target = op["target"]
+                # Only evaluations are aborted. An exception raised inside a linearisation lands inside
+                # OpenMDAO's own finite-difference / complex-step loops, which restore the perturbed input only
+                # on the normal path (not in a finally): the component's input stays perturbed by the FD step
+                # and the next Jacobian is garbage (seen on wingbox_geometry, d/d mesh off by 1e7). That is an
+                # exception-safety matter of the framework, not an OAS property, and optimisers do not survive
+                # a failed gradient evaluation anyway (DESIGN 12.2 item 6).
+                target = "run_model"
                 if target == "compute_totals":
                     total = max(5, len(obs.components(prob)))
                 at = max(1, int(op["frac"] * total))
